@@ -1,6 +1,7 @@
 import DadiVerif.Model.Proto
 import DadiVerif.Model.DemesConv
 import DadiVerif.Driver.DemesConv
+import DadiVerif.Generated.DemesProg
 /- driver ops for C16, graph level (round 4).  Every request starts with `c16g <op>`.
 
    Wire format (no blanks inside a token; `_` = empty):
@@ -78,6 +79,7 @@ def parseEvent (s : String) : Option (Rat × DEvt) :=
       | "merge" => do let ps ← parseNames a; let ch ← parseName b; let pr ← parseRats c; pure (tm, DEvt.merge ps pr ch)
       | "admix" => do let ps ← parseNames a; let ch ← parseName b; let pr ← parseRats c; pure (tm, DEvt.admix ps pr ch)
       | "split" => do let p ← parseName a; let cs ← parseNames b; pure (tm, DEvt.split p cs)
+      | "marginalize" => do let d ← parseName a; pure (tm, DEvt.marginalize d)
       | _ => none
   | _ => none
 
@@ -129,6 +131,60 @@ def showStep : Step → String
   | Step.fail => "F"
 
 def graphTimesOk (g : Graph InEpoch) : Bool := g.demes.all fun d => !d.epochs.isEmpty
+
+/-! ### round 5: the GENERATED programs of `Generated/DemesProg.lean` -/
+
+/-- the five lists of `discrete_demographic_events()` from the wire list (kind order kept within each kind) -/
+def libOf (l : List (Rat × DEvt)) : LibEvents :=
+  { pulses := l.filterMap fun (p : Rat × DEvt) => match p.2 with
+      | DEvt.pulses so d pr => some { sources := so, dest := d, proportions := pr, time := p.1 }
+      | _ => none
+    branches := l.filterMap fun (p : Rat × DEvt) => match p.2 with
+      | DEvt.branch a b => some { parent := a, child := b, time := p.1 }
+      | _ => none
+    mergers := l.filterMap fun (p : Rat × DEvt) => match p.2 with
+      | DEvt.merge ps pr c => some { parents := ps, proportions := pr, child := c, time := p.1 }
+      | _ => none
+    admixtures := l.filterMap fun (p : Rat × DEvt) => match p.2 with
+      | DEvt.admix ps pr c => some { parents := ps, proportions := pr, child := c, time := p.1 }
+      | _ => none
+    splits := l.filterMap fun (p : Rat × DEvt) => match p.2 with
+      | DEvt.split a cs => some { parent := a, children := cs, time := p.1 }
+      | _ => none }
+
+def showMat (m : List (List Rat)) : String := joinE (m.map showRats) ","
+
+/-- a size argument at the fractions `fracs` of the integration time `T` -/
+def showNuAt (fracs : List Rat) (T : Rat) (e : NuEntry) : String := "|".intercalate (fracs.map fun (f : Rat) => showSym (e.at (f * T)))
+
+def showCall (fracs : List Rat) : PCall NuEntry → String
+  | PCall.phi1D nu th ga h ids => "P@" ++ (match nu with | none => "none" | some e => showSym (e.at 0)) ++ "@" ++ showRat th ++ "@" ++ showRat ga ++ "@" ++ showRat h ++ "@" ++ showNames ids
+  | PCall.integrate r => "I@" ++ r.fn ++ "@" ++ showRat r.T ++ "@" ++ showNames r.ids ++ "@" ++ showBools r.frozen ++ "@" ++ showMat r.m ++ "@"
+      ++ joinE (r.nu.map (showNuAt fracs r.T)) "+" ++ "@" ++ showRats r.gamma ++ "@" ++ showRats r.h ++ "@" ++ showRat r.theta
+  | PCall.removePop k => "X@" ++ toString k
+  | PCall.split ids p n => "S@" ++ showNames ids ++ "@" ++ showName p ++ "@" ++ showNames n
+  | PCall.admixNew pr ids ps n => "N@" ++ showRats pr ++ "@" ++ showNames ids ++ "@" ++ showNames ps ++ "@" ++ showNames n
+  | PCall.admix pr ids so d => "A@" ++ showRats pr ++ "@" ++ showNames ids ++ "@" ++ showNames so ++ "@" ++ showName d
+  | PCall.reorder o => "R@" ++ (if o.isEmpty then "_" else "+".intercalate (o.map toString))
+  | PCall.fromPhi ids => "F@" ++ showNames ids
+
+def showCallNat : PCall Nat → String
+  | PCall.integrate r => "I@" ++ r.fn ++ "@" ++ showRat r.T ++ "@" ++ showNames r.ids ++ "@" ++ showBools r.frozen ++ "@" ++ showMat r.m ++ "@"
+      ++ joinE (r.nu.map toString) "+" ++ "@" ++ showRats r.gamma ++ "@" ++ showRats r.h ++ "@" ++ showRat r.theta
+  | PCall.removePop k => "X@" ++ toString k
+  | PCall.split ids p n => "S@" ++ showNames ids ++ "@" ++ showName p ++ "@" ++ showNames n
+  | PCall.admixNew pr ids ps n => "N@" ++ showRats pr ++ "@" ++ showNames ids ++ "@" ++ showNames ps ++ "@" ++ showNames n
+  | PCall.admix pr ids so d => "A@" ++ showRats pr ++ "@" ++ showNames ids ++ "@" ++ showNames so ++ "@" ++ showName d
+  | PCall.reorder o => "R@" ++ (if o.isEmpty then "_" else "+".intercalate (o.map toString))
+  | PCall.fromPhi ids => "F@" ++ showNames ids
+  | PCall.phi1D _ _ _ _ ids => "P@" ++ showNames ids
+
+def parseOptRat (s : String) : Option (Option Rat) := if s = "none" then some none else (parseRat s).map some
+
+def parseBits (s : String) : Option (List Bool) :=
+  if s = "_" then some [] else s.toList.mapM fun (c : Char) => if c = '1' then some true else if c = '0' then some false else none
+
+def parseMat (s : String) : Option (List (List Rat)) := (splitE s ",").mapM parseRats
 
 def handle (toks : List String) : Option String :=
   match toks with
@@ -193,6 +249,47 @@ def handle (toks : List String) : Option String :=
         match applyEventIds l e.2 with
         | none => pure "err raises"
         | some r => pure ("ok " ++ showNames r)).orElse fun _ => some "err parse"
+    | ["gevents", g, lib, sd] => (do
+        let gr ← parseGraph g; let evs ← parseEvents lib; let names ← parseNames sd
+        if !graphTimesOk gr then pure "err empty_deme" else
+        match Gen.DemesProg.getDemographicEvents gr (libOf evs) names with
+        | none => pure "err raises"
+        | some (r : PyDD ETime DEvt × PyDD (ETime × ETime) DName) =>
+          pure ("ok " ++ joinE (r.1.map fun (p : ETime × List DEvt) => showTime p.1 ++ "=" ++ joinE (p.2.map showEvt) ",") ";" ++ " "
+            ++ joinE (r.2.map fun (p : (ETime × ETime) × List DName) => showTime p.1.1 ++ ":" ++ showTime p.1.2 ++ ":" ++ showNames p.2) ";")).orElse fun _ => some "err parse"
+    | ["gparams", g, lib, sd, fz, ne, fr] => (do
+        let gr ← parseGraph g; let evs ← parseEvents lib; let names ← parseNames sd; let frozen ← parseNames fz
+        let n ← parseOptRat ne; let fracs ← parseRats fr
+        if !graphTimesOk gr then pure "err empty_deme" else
+        if n == some 0 then pure "err zero_Ne" else
+        match Gen.DemesProg.getDemographicEvents gr (libOf evs) names with
+        | none => pure "err raises_events"
+        | some (r : PyDD ETime DEvt × PyDD (ETime × ETime) DName) =>
+          match Gen.DemesProg.getIntegrationParameters gr r.2 frozen n with
+          | none => pure "err raises"
+          | some (q : List (List NuEntry) × List (List (List Rat)) × List Rat × List (List Bool)) =>
+            let rows := (q.2.2.1.zip (q.1.zip (q.2.1.zip q.2.2.2))).map fun (x : Rat × List NuEntry × List (List Rat) × List Bool) =>
+              showRat x.1 ++ "@" ++ joinE (x.2.1.map (showNuAt fracs x.1)) "+" ++ "@" ++ showMat x.2.2.1 ++ "@" ++ showBools x.2.2.2
+            pure ("ok " ++ joinE rows ";")).orElse fun _ => some "err parse"
+    | ["gimport", g, lib, sd, fz, ne, th, ga, hh, fr] => (do
+        let gr ← parseGraph g; let evs ← parseEvents lib; let names ← parseNames sd; let frozen ← parseNames fz
+        let n ← parseOptRat ne; let theta ← parseRat th; let gam ← parseOptRat ga; let h ← parseOptRat hh; let fracs ← parseRats fr
+        if !graphTimesOk gr then pure "err empty_deme" else
+        if n == some 0 then pure "err zero_Ne" else
+        match Gen.DemesProg.sfsImport (libOf evs) gr names frozen n theta gam h with
+        | none => pure "err raises"
+        | some (t : Trace NuEntry) => pure ("ok " ++ joinE (t.map (showCall fracs)) ";")).orElse fun _ => some "err parse"
+    | ["gapply", ids, ev] => (do
+        let l ← parseNames ids; let e ← parseEvent ev
+        match Gen.DemesProg.applyEvent ([] : Trace Nat) l e.2 (some e.1) [] with
+        | none => pure "err raises"
+        | some (r : Trace Nat × List DName) => pure ("ok " ++ joinE (r.1.map showCallNat) ";" ++ " " ++ showNames r.2)).orElse fun _ => some "err parse"
+    | ["gintegrate", nus, t, m, ga, hh, th, fz, ids] => (do
+        let nu ← (splitE nus "+").mapM String.toNat?; let tt ← parseRat t; let mm ← parseMat m; let gam ← parseRats ga; let h ← parseRats hh
+        let theta ← parseRat th; let fr ← parseBits fz; let names ← parseNames ids
+        match Gen.DemesProg.integratePhi ([] : Trace Nat) { nu := nu, T := tt, M := mm, gamma := gam, h := h, theta := theta, frozen := fr } names with
+        | none => pure "err raises"
+        | some (r : Trace Nat) => pure ("ok " ++ joinE (r.map showCallNat) ";")).orElse fun _ => some "err parse"
     | ["admixargs", n, src, props] => (do
         let k ← n.toNat?; let s ← parseNatList src; let p ← parseList props
         match admixNewRows.find? (fun (r : AdmixNewRow) => r.npop == k) with
